@@ -215,7 +215,13 @@ func (e *Engine) checkInverted(
 		verifhook.Point("invert.select")
 		select {
 		case result := <-innerCh:
-			// invert result here
+			// invert result here; an error stays an error (an intersection
+			// reports errors together with "not a member", which must not
+			// become "member")
+			if result.Err != nil {
+				resultCh <- checkgroup.Result{Err: result.Err}
+				return
+			}
 			switch result.Membership {
 			case checkgroup.IsMember:
 				result.Membership = checkgroup.NotMember
